@@ -165,6 +165,10 @@ def check(ctx: Ctx) -> None:
     value_table_obligations(ctx, "C03")
     merge_obligations(ctx, "C03")
     setitem_obligations(ctx, "C03")
+    # consolidate_attrs hands the attributes on as stored (an HTML() value that came back as plain str would be escaped again)
+    from ..report import SharedCtx
+    from .c15 import partition_obligations
+    partition_obligations(SharedCtx(ctx, lambda r: "C03.consolidate" if r == "C15.consolidate" else None))
     helper_obligations(ctx, "C03")
     check_escape_function(ctx, ["attr"], "C03", strict_other=True)
     check_escape_tables(ctx, "C03", attr=True)
